@@ -293,3 +293,50 @@ def scenario_stats(scn):
             "depth": max(depth_map(scn).values(), default=0),
             "wires": sum(len(d.get("inputs", {})) for d in devices(scn)),
             "callbacks": sum(1 for d in devices(scn) if d["beh"].get("cb", {}).get("kind", "none") != "none")}
+
+
+# names that differ only in case, punctuation or surrounding characters: whatever is derived from a component
+# name (topics, registry keys, ...) must keep them apart
+CONFUSABLE_GROUPS = [["tbl:x", "tbl_x", "tbl x", "tbl/x", "tbl.x", "tbl-x", "tbl__x", "TBL_X", "tbl;x"],
+                     ["x", "X", "x-in", "x-out", "tickit-x", "tickit-x-in", "x-out-in"],
+                     ["é", "e", "E", "e\u0301"],
+                     ["a b", "a\tb", "a  b", "ab", " ab", "ab "],
+                     ["in", "out", "0", "00", "-", "--"]]
+CONFUSABLE = [n for g in CONFUSABLE_GROUPS for n in g]
+
+
+def tricky_rename(scn, rng):
+    """rename every component (devices and systems at every depth) to a name from CONFUSABLE, consistently
+    in inputs, exposed ports and stimuli; returns a new scenario"""
+    import copy
+    scn = copy.deepcopy(scn)
+    names = [c["name"] for c, _, _ in walk(scn["components"])]
+    pool = [n for n in CONFUSABLE if n not in (EXTERNAL, EXPOSE)]
+    if len(names) > len(pool):
+        return scn
+    # names of one group first (so that at least two components have confusable names), then the rest
+    groups = [list(g) for g in CONFUSABLE_GROUPS]
+    rng.shuffle(groups)
+    order = []
+    for g in groups:
+        rng.shuffle(g)
+        order += [n for n in g if n in pool]
+    picked = order[:len(names)]
+    rng.shuffle(picked)
+    new = dict(zip(names, picked))
+
+    def ren(comps):
+        for c in comps:
+            c["name"] = new[c["name"]]
+            for q, src in list(c.get("inputs", {}).items()):
+                c["inputs"][q] = [new.get(src[0], src[0]), src[1]]
+            if c["kind"] == "sys":
+                for q, src in list(c.get("expose", {}).items()):
+                    c["expose"][q] = [new.get(src[0], src[0]), src[1]]
+                ren(c["components"])
+    ren(scn["components"])
+    for st in scn.get("stims", []):
+        st["comp"] = new.get(st["comp"], st["comp"])
+    if "start_delays" in scn:
+        scn["start_delays"] = {new.get(k, k): v for k, v in scn["start_delays"].items()}
+    return scn
